@@ -52,7 +52,7 @@ LONG = {
     "foreach": [("foreach", 600, 0, 0)],
     "chain": [("chain:map,add,1/take,300", 700, 0, 0), ("chain:skip,260/filter,mod,2,1/take,260", 1200, 0, 0)],
 }
-RANDOM = {"quick": (1500, 40), "thorough": (50000, 80)}
+RANDOM = {"quick": (1500, 40), "thorough": (50000, 80), "escalated": (8000, 60)}
 
 
 def long_for(prop):
@@ -78,8 +78,8 @@ def plan(prop, tier):
         # STRUCTURE DRIFT (tools/fingerprint.py, DESIGN §9.10): the source file an instance was modelled from differs from the one
         # the model was validated against -> the thorough tier's budgets for that instance, whatever tier was asked for
         esc = tier == "quick" and fingerprint.drifted_instance(i, drifted)
-        n, l = RANDOM["thorough" if esc else tier]
-        out.append((i, dt if (esc or tier != "quick") else dq, n, l))
+        n, l = RANDOM["escalated" if esc else tier]
+        out.append((i, dq if tier == "quick" else dt, n, l))
     return out
 
 
